@@ -37,7 +37,7 @@ Record circ := mkCirc { c_name : str; c_subs : list (str * flatC); c_nodes : lis
 Definition sedge := (str * str * option str * list (str * Z))%type.
 Inductive entry :=
 | EOp (eqs : list str) (vars : list (str * vspec))                              (* base: OperatorTemplate *)
-| ENode (is_edge : bool) (ops : list str)                                       (* base: NodeTemplate / EdgeTemplate *)
+| ENode (is_edge : bool) (ops : list (str * upd))           (* base: NodeTemplate / EdgeTemplate; operator key, values set by the node *)
 | ECirc (subs nodes : list (str * str)) (edges : list sedge).                   (* base: CircuitTemplate *)
 Definition store := list (str * entry).
 
@@ -61,11 +61,18 @@ Definition dict_eqb {V} (e : V -> V -> bool) (a b : list (str * V)) : bool :=
 Definition sedge_eqb (a b : sedge) : bool :=
   let '(s1, t1, k1, at1) := a in let '(s2, t2, k2, at2) := b in
   str_eqb s1 s2 && str_eqb t1 t2 && opt_eqb str_eqb k1 k2 && dict_eqb Z.eqb at1 at2.
+(* `operators` of a node is written as a list of keys when the node sets no value at all, else as a dict
+   {key: {variable: value}}; list == list is ordered, dict == dict is not, list == dict is False *)
+Definition plain_ops (l : list (str * upd)) : bool := forallb (fun p => match snd p with [] => true | _ => false end) l.
+Definition node_ops_eqb (a b : list (str * upd)) : bool :=
+  if plain_ops a && plain_ops b then list_eqb str_eqb (map fst a) (map fst b)
+  else if negb (plain_ops a) && negb (plain_ops b) then dict_eqb (dict_eqb Z.eqb) a b
+  else false.
 (* `full_dict[temp_key] != template_dict` of add_to_dict *)
 Definition entry_eqb (a b : entry) : bool :=
   match a, b with
   | EOp e1 v1, EOp e2 v2 => list_eqb str_eqb e1 e2 && dict_eqb vspec_eqb v1 v2
-  | ENode b1 o1, ENode b2 o2 => Bool.eqb b1 b2 && list_eqb str_eqb o1 o2
+  | ENode b1 o1, ENode b2 o2 => Bool.eqb b1 b2 && node_ops_eqb o1 o2
   | ECirc s1 n1 e1, ECirc s2 n2 e2 => dict_eqb str_eqb s1 s2 && dict_eqb str_eqb n1 n2 && list_eqb sedge_eqb e1 e2
   | _, _ => false
   end.
@@ -76,39 +83,45 @@ Definition sedge_eqs (a b : sedge) : bool :=
 Definition entry_eqs (a b : entry) : bool :=
   match a, b with
   | EOp e1 v1, EOp e2 v2 => list_eqb str_eqb e1 e2 && list_eqb (pair_eqb str_eqb vspec_eqb) v1 v2
-  | ENode b1 o1, ENode b2 o2 => Bool.eqb b1 b2 && list_eqb str_eqb o1 o2
+  | ENode b1 o1, ENode b2 o2 => Bool.eqb b1 b2 && list_eqb (pair_eqb str_eqb (list_eqb (pair_eqb str_eqb Z.eqb))) o1 o2
   | ECirc s1 n1 e1, ECirc s2 n2 e2 =>
       list_eqb (pair_eqb str_eqb str_eqb) s1 s2 && list_eqb (pair_eqb str_eqb str_eqb) n1 n2 && list_eqb sedge_eqs e1 e2
   | _, _ => false
   end.
 
 (* ---------- Impl: dump ---------- *)
-Definition num1 : str := ["_"; "n"; "u"; "m"; "1"]%char.
-
-(* add_to_dict: the key is the template's name; if that key is taken by a DIFFERENT dict the key becomes
-   <name>_num1 — get_unique_label is called with all counters 0, so it is _num1 every time, and whatever was
-   stored under <name>_num1 before is overwritten (D33).  `!=` on dicts ignores the order of keys (entry_eqb); two
-   structurally identical dicts are equal in particular (entry_eqs; implied by entry_eqb for lists that are Python
-   dicts, i.e. have unique keys) *)
-Definition add_to_dict (name : str) (d : entry) (st : store) : str * store :=
-  match assoc name st with
-  | Some d' => if entry_eqs d' d || entry_eqb d' d then (name, set_assoc name d st)
-               else let k := name ++ num1 in (k, set_assoc k d st)
-  | None => (name, set_assoc name d st)
+Definition numpre : str := ["_"; "n"; "u"; "m"]%char.
+Fixpoint dec (fuel n : nat) : str :=
+  match fuel with
+  | O => []
+  | S f => (if Nat.ltb n 10 then [] else dec f (Nat.div n 10)) ++ [ascii_of_nat (48 + Nat.modulo n 10)]
   end.
+Definition key_k (name : str) (k : nat) : str := match k with O => name | _ => name ++ numpre ++ dec (S k) k end.
 
-(* from_operator: variables = dict(op.variables); variables.update(updates) — an overridden variable's whole
-   definition ("output(0.5)") is replaced by the bare number *)
-Definition merge_vars (vars : list (str * vspec)) (u : upd) : list (str * vspec) :=
-  fold_left (fun (acc : list (str * vspec)) (kv : str * Z) =>
-               set_assoc (fst kv) ((match @assoc vspec (fst kv) acc with Some (t, _) => t | None => VConst end, snd kv) : vspec) acc) u vars.
-Definition op_entry (op : opT) (u : upd) : entry := EOp (o_eqs op) (merge_vars (o_vars op) u).
+(* add_to_dict (as repaired): the key is the template's name; if that key is taken by a DIFFERENT dict, the first key
+   <name>_num<k>, k = 1, 2, ..., that is free or already holds this very dict.  `!=` on dicts ignores the order of keys
+   (entry_eqb); two structurally identical dicts are equal in particular (entry_eqs).  A store of n entries has a free
+   key among n+1 candidates: fuel S (length st) is never exhausted. *)
+Fixpoint free_key (name : str) (d : entry) (st : store) (k fuel : nat) : str :=
+  match fuel with
+  | O => key_k name k
+  | S f => match assoc (key_k name k) st with
+           | Some d' => if entry_eqs d' d || entry_eqb d' d then key_k name k else free_key name d st (S k) f
+           | None => key_k name k
+           end
+  end.
+Definition add_to_dict (name : str) (d : entry) (st : store) : str * store :=
+  let key := free_key name d st 0 (S (List.length st)) in (key, set_assoc key d st).
+
+(* from_node / from_operator (as repaired): the operator template is written as it is — one dict per operator template —
+   and the values a node sets stay at the node: operators: {<operator key>: {<variable>: <value>}} *)
+Definition op_entry (op : opT) (u : upd) : entry := EOp (o_eqs op) (o_vars op).
 Definition dump_op (op : opT) (u : upd) (st : store) : str * store := add_to_dict (o_name op) (op_entry op u) st.
 
-Fixpoint dump_ops (l : list (opT * upd)) (st : store) : list str * store :=
+Fixpoint dump_ops (l : list (opT * upd)) (st : store) : list (str * upd) * store :=
   match l with
   | [] => ([], st)
-  | (op, u) :: l' => let (k, st1) := dump_op op u st in let (ks, st2) := dump_ops l' st1 in (k :: ks, st2)
+  | (op, u) :: l' => let (k, st1) := dump_op op u st in let (ks, st2) := dump_ops l' st1 in ((k, u) :: ks, st2)
   end.
 Definition dump_node (is_edge : bool) (nd : nodeT) (st : store) : str * store :=
   let (ks, st1) := dump_ops (n_ops nd) st in add_to_dict (n_name nd) (ENode is_edge ks) st1.
@@ -151,7 +164,7 @@ Definition load_op (st : store) (k : str) : option opT :=
 Definition load_node (is_edge : bool) (st : store) (k : str) : option nodeT :=
   match assoc k st with
   | Some (ENode e ops) =>
-      if Bool.eqb e is_edge then obind (mapM (load_op st) ops) (fun os => Some (mkNode k (map (fun o => (o, [])) os))) else None
+      if Bool.eqb e is_edge then obind (mapM (fun ku => obind (load_op st (fst ku)) (fun o => Some (o, snd ku))) ops) (fun os => Some (mkNode k os)) else None
   | _ => None
   end.
 Definition load_keyed {A} (f : str -> option A) (l : list (str * str)) : option (list (str * A)) :=
@@ -211,7 +224,7 @@ Definition denote (c : circ) : den :=
 (* the entries a dump writes when no key is ever renamed: child keys = child names *)
 Definition node_entries (is_edge : bool) (nd : nodeT) : list (str * entry) :=
   map (fun ou => (o_name (fst ou), op_entry (fst ou) (snd ou))) (n_ops nd) ++
-  [(n_name nd, ENode is_edge (map (fun ou => o_name (fst ou)) (n_ops nd)))].
+  [(n_name nd, ENode is_edge (map (fun ou => (o_name (fst ou), snd ou)) (n_ops nd)))].
 Definition pure_edge (e : edgeT) : sedge := (ed_src e, ed_tgt e, option_map n_name (ed_tpl e), ed_attrs e).
 Definition edge_entries (e : edgeT) : list (str * entry) :=
   match ed_tpl e with None => [] | Some t => node_entries true t end.
@@ -229,6 +242,11 @@ Definition circ_entries (c : circ) : list (str * entry) :=
 Definition consistent (l : list (str * entry)) : bool :=
   forallb (fun p => forallb (fun q => implb (str_eqb (fst p) (fst q)) (entry_eqs (snd p) (snd q))) l) l.
 Definition no_rename (c : circ) : bool := consistent (circ_entries c).
+(* renaming a node template or a circuit template is harmless (their names occur in no path); what changes the model is a
+   renamed OPERATOR (paths node/<operator>/var) or a renamed EDGE TEMPLATE (its name is the label of the edge node, and
+   <name>_num1 collides with the labels the compiler hands out): the class of the remaining finding C15-D10c-rename *)
+Definition critical (e : entry) : bool := match e with EOp _ _ => true | ENode true _ => true | _ => false end.
+Definition no_critical_rename (c : circ) : bool := consistent (filter (fun p => critical (snd p)) (circ_entries c)).
 
 (* number of distinct dicts written under one name: D33 needs three *)
 Fixpoint distinct_count (name : str) (seen : list entry) (l : list (str * entry)) : nat :=
@@ -263,7 +281,7 @@ Definition tpl_edge_keys (pre : str) (l : list edgeT) : list str :=
 Definition no_parallel_tpl_edges (c : circ) : bool :=
   nodupb (flat_map (fun kf => tpl_edge_keys (fst kf ++ slash) (f_edges (snd kf))) (c_subs c) ++ tpl_edge_keys [] (c_edges c)).
 
-Definition WFy (c : circ) : bool := dicts_wf c && no_rename c && const_overrides c.
+Definition WFy (c : circ) : bool := no_rename c.
 
 (* comparison of denotations (for the correspondence run) *)
 Definition dvar_eqb : dvar -> dvar -> bool := pair_eqb str_eqb vspec_eqb.
